@@ -96,6 +96,7 @@ type State struct {
 	timers  []timerRec
 	vtime   *Term // virtual nanoseconds elapsed
 	hashRecs []*hashRec
+	mus      map[muKey]muState // sync.Mutex / sync.RWMutex ownership (sched.go)
 }
 
 func (s *State) setUB(t *Term, v uint64) {
@@ -164,6 +165,12 @@ func (s *State) fork() *State {
 	s.cloneThreads(c)
 	c.clock = s.clock
 	c.hashRecs = s.hashRecs
+	if len(s.mus) > 0 {
+		c.mus = make(map[muKey]muState, len(s.mus))
+		for k, v := range s.mus {
+			c.mus[k] = v
+		}
+	}
 	c.facts = s.facts
 	c.factsShared = true
 	s.factsShared = true
